@@ -19,6 +19,10 @@
 //!   vmp2 [be=] k= a= b= b2= [off=1]  matrix with two output limbs (2-column kernels) → `limb0|limb1`; `off=1`:
 //!                                  vec_znx_dft_apply + vmp_apply_dft_to_dft(limb_offset = 1) → the second limb only
 //!
+//!   cnv [be=] k= rs= off= sl= sr= ml= mr= a=l;l;… b=l;l;…    cnv_prepare_left/right + cnv_apply_dft + idft of every limb (one column)
+//!   cnvp … a0= a1= b0= b1=           cnv_pairwise_apply_dft(i = 0, j = 1) on two-column operands
+//!   cnvc [be=] k= rs= off= a=l;l;… c=<i64,…>   cnv_by_const_apply (coefficient domain, i64)
+//!
 //! A result vector containing a non-finite value is printed as `err:nonfinite` (the model does not
 //! follow NaN/inf propagation).
 use std::io::{BufRead, Write};
@@ -32,7 +36,7 @@ use poulpy_cpu_ref::reference::fft64::reim::{
 use poulpy_hal::{
     api::{
         ModuleNew, ScratchOwnedAlloc, ScratchOwnedBorrow, SvpApplyDft, SvpPPolAlloc, SvpPrepare, VecZnxBigAlloc, VecZnxDftAlloc,
-        VecZnxDftApply, VecZnxIdftApply, VmpApplyDft, VmpApplyDftToDft, VmpPMatAlloc, VmpPrepare,
+        CnvPVecAlloc, Convolution, VecZnxDftApply, VecZnxIdftApply, VmpApplyDft, VmpApplyDftToDft, VmpPMatAlloc, VmpPrepare,
     },
     layouts::{MatZnx, Module, ScalarZnx, ScratchOwned, VecZnx, ZnxView, ZnxViewMut},
 };
@@ -146,6 +150,77 @@ macro_rules! hal_pipes {
         }
     };
 }
+
+macro_rules! hal_cnv {
+    ($fname:ident, $be:ty) => {
+        fn $fname(op: &str, t: &[&str]) -> String {
+            type BE = $be;
+            let k: usize = kv(t, "k").map(|v| v.parse().unwrap()).unwrap_or(0);
+            let n: usize = 2 << k;
+            let g = |name: &str| -> usize { kv(t, name).map(|v| v.parse().unwrap()).unwrap_or(0) };
+            let gi = |name: &str| -> i64 { kv(t, name).map(|v| v.parse().unwrap()).unwrap_or(-1) };
+            let (rs, off, sl, sr) = (g("rs"), g("off"), g("sl"), g("sr"));
+            let (ml, mr) = (gi("ml"), gi("mr"));
+            let module: Module<BE> = Module::<BE>::new(n as u64);
+            let mut scratch: ScratchOwned<BE> = ScratchOwned::alloc(1 << 24);
+            let fill = |cols: usize, limbs: &[Vec<Vec<i64>>]| -> VecZnx<Vec<u8>> {
+                let size = limbs[0].len();
+                let mut v = VecZnx::alloc(n, cols, size.max(1));
+                for (c, col) in limbs.iter().enumerate() {
+                    for (j, l) in col.iter().enumerate() {
+                        v.at_mut(c, j).copy_from_slice(l);
+                    }
+                }
+                v
+            };
+            let show = |big: &poulpy_hal::layouts::VecZnxBig<_, BE>, size: usize| -> String {
+                (0..size).map(|j| join(big.at(0, j))).collect::<Vec<_>>().join(";")
+            };
+            match op {
+                "cnvc" => {
+                    let a = vecs(t, "a");
+                    if a.iter().any(|v| v.len() != n) {
+                        return "err:shape".to_string();
+                    }
+                    let c: Vec<i64> = list(t, "c");
+                    let va = fill(1, &[a]);
+                    let mut big = module.vec_znx_big_alloc(1, rs);
+                    module.cnv_by_const_apply(off, &mut big, 0, &va, 0, &c, scratch.borrow());
+                    show(&big, rs)
+                }
+                _ => {
+                    let cols: Vec<(Vec<Vec<i64>>, Vec<Vec<i64>>)> = if op == "cnv" {
+                        vec![(vecs(t, "a"), vecs(t, "b"))]
+                    } else {
+                        vec![(vecs(t, "a0"), vecs(t, "b0")), (vecs(t, "a1"), vecs(t, "b1"))]
+                    };
+                    if cols.iter().any(|(a, b)| a.iter().chain(b.iter()).any(|v| v.len() != n)) {
+                        return "err:shape".to_string();
+                    }
+                    let nc = cols.len();
+                    let va = fill(nc, &cols.iter().map(|c| c.0.clone()).collect::<Vec<_>>());
+                    let vb = fill(nc, &cols.iter().map(|c| c.1.clone()).collect::<Vec<_>>());
+                    let mut l = module.cnv_pvec_left_alloc(nc, sl);
+                    let mut r = module.cnv_pvec_right_alloc(nc, sr);
+                    module.cnv_prepare_left(&mut l, &va, ml, scratch.borrow());
+                    module.cnv_prepare_right(&mut r, &vb, mr, scratch.borrow());
+                    let mut d = module.vec_znx_dft_alloc(1, rs);
+                    if op == "cnv" {
+                        module.cnv_apply_dft(off, &mut d, 0, &l, 0, &r, 0, scratch.borrow());
+                    } else {
+                        module.cnv_pairwise_apply_dft(off, &mut d, 0, &l, &r, 0, 1, scratch.borrow());
+                    }
+                    let mut big = module.vec_znx_big_alloc(1, rs);
+                    module.vec_znx_idft_apply(&mut big, 0, &d, 0, scratch.borrow());
+                    show(&big, rs)
+                }
+            }
+        }
+    };
+}
+
+hal_cnv!(cnv_ref, FFT64Ref);
+hal_cnv!(cnv_avx, FFT64Avx);
 
 hal_pipes!(pipes_ref, FFT64Ref);
 hal_pipes!(pipes_avx, FFT64Avx);
@@ -271,6 +346,10 @@ fn answer(t: &[&str]) -> String {
                 _ => pipes_ref(op, k, &a, &b, &b2, off),
             }
         }
+        "cnv" | "cnvp" | "cnvc" => match kv(t, "be") {
+            Some("avx") => cnv_avx(op, t),
+            _ => cnv_ref(op, t),
+        },
         "ffma" => {
             let (a, b, c) = (floats(t, "a"), floats(t, "b"), floats(t, "c"));
             let r: Vec<f64> = a
